@@ -329,9 +329,30 @@ def gen_rel(rng, n):
         mode = rng.choice(["elementwise", "pairwise"])
         ns = rng.choice([1, 2, 3, 4])
         no = ns if mode == "elementwise" else rng.choice([1, 2, 3])
+        structured = rng.random() < 0.5
         while True:
             S = [fdisk(rng) for _ in range(ns)]
             O = [fdisk(rng) for _ in range(no)]
+            if structured:
+                # every bounded/unbounded combination x nested (o in s) / nested (s in o) / disjoint / crossing circles, with the
+                # flags of each array all bounded, all unbounded or mixed
+                fs_, fo_ = rng.choice(["all_b", "all_u", "mixed"]), rng.choice(["all_b", "all_u", "mixed"])
+                for j_, o_ in enumerate(O):
+                    s_ = S[j_ % ns]
+                    cfg = rng.choice(["o_in_s", "s_in_o", "disjoint", "crossing"])
+                    t_ = rng.uniform(0, 2 * math.pi)
+                    if cfg == "o_in_s":
+                        o_["r"] = s_["r"] * rng.uniform(0.2, 0.5); dd_ = (s_["r"] - o_["r"]) * rng.uniform(0.0, 0.6)
+                    elif cfg == "s_in_o":
+                        o_["r"] = s_["r"] * rng.uniform(2.0, 3.0); dd_ = (o_["r"] - s_["r"]) * rng.uniform(0.0, 0.6)
+                    elif cfg == "disjoint":
+                        o_["r"] = s_["r"] * rng.uniform(0.5, 1.5); dd_ = (s_["r"] + o_["r"]) * rng.uniform(1.3, 2.0)
+                    else:
+                        o_["r"] = s_["r"] * rng.uniform(0.7, 1.3); dd_ = max(s_["r"], o_["r"]) * rng.uniform(0.6, 0.9) + abs(s_["r"] - o_["r"]) * 0.5
+                    o_["c"] = [s_["c"][0] + dd_ * math.cos(t_), s_["c"][1] + dd_ * math.sin(t_)]
+                for arr_, fl_ in ((S, fs_), (O, fo_)):
+                    for d_ in arr_:
+                        d_["bounded"] = True if fl_ == "all_b" else (False if fl_ == "all_u" else d_["bounded"])
             pairs = zip(S, O) if mode == "elementwise" else ((s, o) for s in S for o in O)
             if all(general_position(s, o) for s, o in pairs):
                 break
@@ -600,6 +621,43 @@ def run_dsk(inp):
             res["shape_fs_diameter"] = _cmp(lambda: dsh.fs_diameter(), lambda: dfl.fs_diameter())
             res["shape_complement_inside"] = _cmp(lambda: dsh.complement().center_inside(), lambda: dfl.complement().center_inside())
             res["shape_contains"] = _cmp(lambda: dsh.contains(CP.CP1Disk(cs, np.asarray(rr) * 0.5)), lambda: dfl.contains(CP.CP1Disk(np.asarray(cs).reshape(-1), np.asarray(rr).reshape(-1) * 0.5)))
+        # utils.cp1 helpers against an exact spherical-cap reference: Fubini-Study disks containing 0, containing infinity,
+        # both, neither
+        from geometry_tools.utils import cp1 as _cp1
+        def _cap_circle(cz, R):
+            """Euclidean centre / radius of the boundary circle of the FS disk (centre cz affine, FS radius R), via three cap points"""
+            n2 = abs(cz) ** 2
+            nvec = np.array([2 * cz.real, 2 * cz.imag, n2 - 1]) / (n2 + 1)
+            a_ = np.array([1.0, 0, 0]) if abs(nvec[0]) < 0.9 else np.array([0, 1.0, 0])
+            u_ = np.cross(nvec, a_); u_ /= np.linalg.norm(u_); v_ = np.cross(nvec, u_)
+            pts_ = []
+            for t_ in (0.3, 2.4, 4.5):
+                p_ = math.cos(2 * R) * nvec + math.sin(2 * R) * (math.cos(t_) * u_ + math.sin(t_) * v_)
+                pts_.append(complex(p_[0], p_[1]) / (1 - p_[2]))
+            (x1, y1), (x2, y2), (x3, y3) = [(z_.real, z_.imag) for z_ in pts_]
+            A_ = np.array([[x2 - x1, y2 - y1], [x3 - x1, y3 - y1]])
+            b_ = 0.5 * np.array([x2 * x2 + y2 * y2 - x1 * x1 - y1 * y1, x3 * x3 + y3 * y3 - x1 * x1 - y1 * y1])
+            cc_ = np.linalg.solve(A_, b_)
+            return complex(cc_[0], cc_[1]), math.hypot(x1 - cc_[0], y1 - cc_[1])
+        worst_ = 0.0
+        rs2 = np.random.default_rng(int(1e6 * fr[0]))
+        for cz in list(c[:2]) + [0.3 + 0.2j, 2.5 - 1j]:
+            if abs(cz) == 0:
+                continue
+            t0 = math.atan(abs(cz))
+            for R in (0.5 * t0, min(1.4, t0 + 0.2), max(0.05, (math.pi / 2 - t0) * 0.5), min(1.45, (math.pi / 2 - t0) + 0.15), float(rs2.uniform(0.05, 1.4))):
+                if abs(R - t0) < 0.02 or abs(R - (math.pi / 2 - t0)) < 0.02 or R <= 0:
+                    continue
+                cref, rref = _cap_circle(cz, R)
+                got = complex(_cp1.fs_ctr_to_aff_ctr(cz, R))
+                worst_ = max(worst_, abs(got - cref) / (1 + abs(cref)))
+                # and back: the Fubini-Study centre (modulus) of the Euclidean disk / its complement
+                back = float(_cp1.aff_ctr_to_fs_ctr(cref, rref))
+                contains_inf = t0 + R > math.pi / 2
+                want_back = abs(cz) if not contains_inf else None
+                if want_back is not None:
+                    worst_ = max(worst_, abs(back - want_back) / (1 + want_back))
+        res["cp1_helpers_vs_cap"] = worst_
         c2 = comp.complement()
         res["complement_twice"] = 0.0 if proj_close(c2.proj_data, d.proj_data, 1e-8) and np.all(c2.center_inside()) else 1.0
     return res
